@@ -41,6 +41,10 @@ class UndefSubError(DefinedError):
     pass
 
 
+class AppSubError(ApplicationError):
+    """an application error class of its own, registered on the callee, raised with more specific URIs"""
+
+
 class UndefinedError(Exception):
     def __init__(self, *args, **kwargs):
         Exception.__init__(self, *args)
@@ -106,9 +110,14 @@ def one(kind, reg, tb, sername, shape, uri_app):
     callee.define(DecoratedError)
     callee.define(DefinedError, "com.myapp.error.defined")
     callee.define(DefinedSubError, "com.myapp.error.definedsub")      # after its base class
+    if kind == "appsub":
+        callee.define(AppSubError, "com.myapp.error.appsub")
     cls = {"app": None, "decorated": DecoratedError, "defined": DefinedError, "undefined": UndefinedError,
-           "definedsub": DefinedSubError, "undefsub": UndefSubError}[kind]
-    expected_uri = uri_app if kind == "app" else uris.get(kind, "wamp.error.runtime_error")
+           "definedsub": DefinedSubError, "undefsub": UndefSubError, "appsub": AppSubError, "appsubundef": AppSubError}[kind]
+    carried = kind in ("app", "appsub", "appsubundef")
+    if kind in ("appsub", "appsubundef"):
+        uri_app = "com.myapp.error.appsub.detail"
+    expected_uri = uri_app if carried else uris.get(kind, "wamp.error.runtime_error")
     regcls = None
     if reg == "same":
         regcls = {"decorated": DecoratedError, "defined": DefinedError, "definedsub": DefinedSubError}[kind]
@@ -122,6 +131,8 @@ def one(kind, reg, tb, sername, shape, uri_app):
     def endpoint(*a, **kw):
         if kind == "app":
             raise ApplicationError(uri_app, *args, **kwargs)
+        if carried:
+            raise cls(uri_app, *args, **kwargs)
         raise cls(*args, **kwargs)
     esc = ""
     obs = dict(replied=False, wireUri="", wireArgsSame=False, wireKwargsSame=False, tbOnWire=False, failed=False,
@@ -140,7 +151,7 @@ def one(kind, reg, tb, sername, shape, uri_app):
         obs["replied"] = len(errs) == 1 and len(ct.sent) == 1
         if errs:
             em = errs[0]
-            obs["wireUri"] = "carried" if (kind == "app" and em.error == uri_app) else ("registered" if kind in uris and em.error == uris.get(kind) else ("runtime" if em.error == "wamp.error.runtime_error" else "other:" + str(em.error)))
+            obs["wireUri"] = "carried" if (carried and em.error == uri_app) else ("registered" if kind in uris and em.error == uris.get(kind) else ("runtime" if em.error == "wamp.error.runtime_error" else "other:" + str(em.error)))
             wk = dict(em.kwargs or {})
             obs["tbOnWire"] = "traceback" in wk
             wk.pop("traceback", None)
@@ -182,9 +193,9 @@ def main():
     inp = driver_in()
     rng = random.Random(int(os.environ.get("VERIF_SEED", "0")) * 31 + 7)
     traces = []
-    for kind in ("app", "decorated", "defined", "undefined", "definedsub", "undefsub"):
+    for kind in ("app", "decorated", "defined", "undefined", "definedsub", "undefsub", "appsub", "appsubundef"):
         for reg in ("same", "badctor", "none"):
-            if reg == "same" and kind in ("app", "undefined", "undefsub"):
+            if reg == "same" and kind in ("app", "undefined", "undefsub", "appsub", "appsubundef"):
                 continue      # no class of this driver is registered for an arbitrary / the runtime-error URI
             for tb in (False, True):
                 for sername in SERS:
